@@ -213,3 +213,58 @@ func dropGlobalWrites(t *Term) *Term {
 		return nil
 	})
 }
+
+// conformAny: the operation equals ONE of several admissible reference operations (sibling
+// variants that differ in a policy both of which preserve the property).
+func conformAny(r *Run, rule, rel, tname, mname string, refNames []string, setup func(*Interp)) {
+	w := r.W
+	construct := rel + ".(" + tname + ")." + mname
+	fd, pkg := w.Method(rel, tname, mname)
+	if fd == nil {
+		r.undecided(rule, construct, token.NoPos, "operation not found in the repository")
+		return
+	}
+	in := newInterp(w)
+	if setup != nil {
+		setup(in)
+	}
+	got, err := in.FuncTerm(fd, pkg)
+	if err != nil {
+		r.undecided(rule, construct, fd.Pos(), "operation is not in a form the term engine recognises: %v", err)
+		return
+	}
+	g := hoistAll(dropGlobalWrites(got))
+	var diffs []string
+	for _, refName := range refNames {
+		rp, err := loadRef(w, refName)
+		if err != nil {
+			r.undecided(rule, construct, fd.Pos(), "%v", err)
+			return
+		}
+		rfd := rp.decls[tname+"."+mname]
+		if rfd == nil {
+			r.undecided(rule, construct, fd.Pos(), "the reference model %s has no operation %s.%s", refName, tname, mname)
+			return
+		}
+		rin := rp.interp(w)
+		if setup != nil {
+			setup(rin)
+		}
+		want, err := rin.FuncTerm(rfd, rp.pkg)
+		if err != nil {
+			r.undecided(rule, construct, fd.Pos(), "reference model %s not interpretable: %v", refName, err)
+			return
+		}
+		s := hoistAll(dropGlobalWrites(want))
+		eq, diff := equivTrees(g, s)
+		if eq {
+			r.ok(rule, construct, fd.Pos(), "normal form equals the reference operation %s.%s.%s for every state and argument", refName, tname, mname)
+			return
+		}
+		if diff == "" || strings.HasPrefix(diff, "decision trees differ") {
+			diff = "\n      code: " + clip(g.Pretty(), 1500) + "\n      spec: " + clip(s.Pretty(), 1500)
+		}
+		diffs = append(diffs, refName+": "+diff)
+	}
+	r.bad(rule, construct, fd.Pos(), "differs from every admissible reference operation: %s", strings.Join(diffs, "\n    "))
+}
